@@ -129,6 +129,11 @@ func propC15(h *H) {
 				if r, pan = Call(g, args[0]); pan != "" {
 					return
 				}
+				// a second partial application of the same curried value, with the other
+				// sentinel, must not disturb the first one
+				if _, pan = Call(g, argFor(ptypes[0], 0, 1-(mask&1), sc)); pan != "" {
+					return
+				}
 				got, pan = Call(dyn(r[0]), args[1:]...)
 			case "uncurry", "uncurrycurry":
 				if r, pan = Call(w, f); pan != "" {
@@ -143,6 +148,10 @@ func propC15(h *H) {
 				got, pan = Call(dyn(r[0]), sw...)
 			case "apply":
 				if r, pan = Call(w, f, args[n-1]); pan != "" {
+					return
+				}
+				// a second application with the other sentinel must not disturb the first one
+				if _, pan = Call(w, f, argFor(ptypes[n-1], n-1, 1-((mask>>uint(n-1))&1), sc)); pan != "" {
 					return
 				}
 				got, pan = Call(dyn(r[0]), args[:n-1]...)
